@@ -5,6 +5,7 @@ import (
 	"strconv"
 	"strings"
 
+	"sigs.k8s.io/kustomize/kyaml/utils"
 	kyaml "sigs.k8s.io/kustomize/kyaml/yaml"
 )
 
@@ -37,6 +38,7 @@ var apiOps = map[string]bool{
 	"fields": true, "visitfields": true, "elements": true, "elementvalues": true, "mapfieldtext": true, "field": true,
 	"getfieldvalue": true, "getstring": true, "getslice": true,
 	"rawfield": true, "rawmapfieldvalue": true, "rawfields": true,
+	"pathsplit": true, "pathsplitc": true, "smartsplit": true,
 }
 
 func optNode(v *vspec) *kyaml.RNode {
@@ -265,6 +267,15 @@ func execAPI14(doc *kyaml.RNode, c case14) (cls string, found *kyaml.RNode, obs 
 			l, e := a.rawNode().Fields()
 			obs = "(ObStrs " + coqStrList(l) + ")"
 			return e
+		case "pathsplit":
+			obs = "(ObStrs " + coqStrList(utils.PathSplitter(a.PathStr, "/")) + ")"
+			return nil
+		case "pathsplitc":
+			obs = "(ObStrs " + coqStrList(utils.PathSplitter(a.PathStr, a.K)) + ")"
+			return nil
+		case "smartsplit":
+			obs = "(ObStrs " + coqStrList(utils.SmarterPathSplitter(a.PathStr, a.K)) + ")"
+			return nil
 		}
 		return fmt.Errorf("bad op")
 	})
@@ -341,6 +352,12 @@ func (a *apiSpec) coqOp(op string) (string, bool) {
 	case "rawfields":
 		t, ok := rawContent()
 		return fmt.Sprintf("(ORawFields %s %s)", a.RawKind, t), ok
+	case "pathsplit":
+		return "(OPathSplit " + coqStr(a.PathStr) + ")", true
+	case "pathsplitc":
+		return fmt.Sprintf("(OPathSplitC %s%%char %s)", coqStr(a.K), coqStr(a.PathStr)), len(a.K) == 1
+	case "smartsplit":
+		return fmt.Sprintf("(OSmartSplit %s%%char %s)", coqStr(a.K), coqStr(a.PathStr)), len(a.K) == 1
 	}
 	return "", false
 }
@@ -405,10 +422,15 @@ func genDocAPI14(g *Rng) *gnode {
 	root := genNode14(g, 3, true)
 	var rec func(x *gnode)
 	rec = func(x *gnode) {
-		if x.kind == 2 && g.Chance(25) {
+		if x.kind == 2 && g.Chance(30) {
 			ins := &gnode{kind: 1}
-			if g.Bool() {
+			switch g.Intn(6) {
+			case 0, 1:
 				ins = &gnode{kind: 0, text: "null"}
+			case 2:
+				ins = &gnode{kind: 2} // []
+			case 3:
+				ins = &gnode{kind: 0, text: g.Pick([]string{`""`, "0", "false"})}
 			}
 			pos := g.Intn(len(x.vals) + 1)
 			x.vals = append(x.vals[:pos], append([]*gnode{ins}, x.vals[pos:]...)...)
@@ -456,6 +478,18 @@ func genAPICase14(g *Rng) case14 {
 	root := genDocAPI14(g)
 	if g.Chance(50) {
 		root = genNode14(g, 3, true) // lists without inserted null / empty-mapping elements
+		var rec func(x *gnode)
+		rec = func(x *gnode) { // ... but with siblings ElementSetter has to keep: [], "", 0, [x]
+			if x.kind == 2 && g.Chance(35) {
+				ins := []*gnode{{kind: 2}, {kind: 0, text: `""`}, {kind: 0, text: "0"}, {kind: 2, vals: []*gnode{{kind: 0, text: "x"}}}}[g.Intn(4)]
+				pos := g.Intn(len(x.vals) + 1)
+				x.vals = append(x.vals[:pos], append([]*gnode{ins}, x.vals[pos:]...)...)
+			}
+			for _, ch := range x.vals {
+				rec(ch)
+			}
+		}
+		rec(root)
 	}
 	for try := 0; try < 6 && !hasSeq14(root); try++ {
 		root = genNode14(g, 3, true)
@@ -517,7 +551,8 @@ func genAPICase14(g *Rng) case14 {
 	}
 	ops := []string{"elemmatch", "elemmatch", "elemset", "elemset", "elemset", "elemappend", "fieldmatch", "fieldmatch", "fieldclear", "teeset",
 		"setlabel", "setannotation", "setk8smeta", "fields", "visitfields", "elements", "elementvalues", "mapfieldtext", "field",
-		"getfieldvalue", "getfieldvalue", "getstring", "getslice", "rawfield", "rawmapfieldvalue", "rawfields"}
+		"getfieldvalue", "getfieldvalue", "getstring", "getslice", "rawfield", "rawmapfieldvalue", "rawfields",
+		"pathsplit", "pathsplit", "pathsplitc", "smartsplit", "smartsplit"}
 	c.Op = g.Pick(ops)
 	switch c.Op {
 	case "elemmatch", "elemset":
@@ -627,6 +662,12 @@ func genAPICase14(g *Rng) case14 {
 			}
 		}
 		a.PathStr = dotPath14(g, p)
+	case "pathsplit", "pathsplitc", "smartsplit":
+		a.K = "/"
+		if c.Op != "pathsplit" {
+			a.K = g.Pick([]string{"/", ".", ".", "|"})
+		}
+		a.PathStr = genSplitPath14(g, a.K)
 	case "rawfield", "rawmapfieldvalue", "rawfields":
 		a.RawKind = g.Pick([]string{"RKMap", "RKMap", "RKSeq"})
 		n := g.Intn(6)
@@ -684,15 +725,6 @@ func floatTexts(acc map[string]bool) []string {
 
 // ---------- law oracles for the node API (mirrors of the theorems of ElemsProofs / NodeApiProofs / MatchAgreeProofs) ----------
 
-const oddContentClass14 = "C14/panic-visitFieldsWhileTrue-index-oob"
-
-// oddContentPanic14: the listed shape (C12: panic:kyaml/yaml.visitFieldsWhileTrue:index-oob): a reader of mapping
-// fields ran off a Content slice of odd length (a sequence read as a mapping, or a malformed mapping)
-func oddContentPanic14(msg string, n *kyaml.Node) bool {
-	return strings.Contains(msg, "index out of range") && n != nil && len(n.Content)%2 == 1 &&
-		(n.Kind == kyaml.SequenceNode || n.Kind == kyaml.MappingNode)
-}
-
 func selMatches14(k, v string, e *kyaml.Node) bool {
 	if k == "" {
 		return e.Value == v
@@ -738,10 +770,8 @@ func lawsAPI14(s sink, c case14, d *docCtx14) (string, bool) {
 				target = x.YNode()
 			}
 		}
-		class := panicClass14(msg)
-		if oddContentPanic14(msg, target) {
-			class = oddContentClass14
-		}
+		_ = target
+		class := panicClass14(msg) // no reader may panic (C14_raw_reader_no_panic): every panic is unlisted
 		s.Violation(OracleViolation{Law: "no_panic", Class: class, Detail: fmt.Sprintf("op %s panics: %s", c.Op, msg), Replay: c})
 		return cls, false
 	}
@@ -809,6 +839,30 @@ func lawsAPI14(s sink, c case14, d *docCtx14) (string, bool) {
 			break
 		}
 		s.Count("law_domain", "elemset-laws")
+		// elem_setter_spec: every element answering to the key is replaced, nothing else changes, the element is
+		// appended when none answered
+		{
+			want := []*kyaml.Node{}
+			hit := false
+			for _, e := range at.YNode().Content {
+				if selMatches14(k, v, e) {
+					want = append(want, x.YNode())
+					hit = true
+				} else {
+					want = append(want, e)
+				}
+			}
+			if !hit {
+				want = append(want, x.YNode())
+			}
+			ok := len(want) == len(after.YNode().Content)
+			for i := 0; ok && i < len(want); i++ {
+				ok = eqNode14(want[i], after.YNode().Content[i], true)
+			}
+			if !ok {
+				report("elem_setter_spec", "ElementSetter did not leave exactly the list with the matching elements replaced: "+optString(after))
+			}
+		}
 		// put-get
 		var got *kyaml.RNode
 		protect14(func() error { var e error; got, e = after.Pipe(kyaml.MatchElement(k, v)); return e })
@@ -997,5 +1051,62 @@ func lawPM14(s sink, c case14, d *docCtx14) {
 	if !ok {
 		s.Violation(OracleViolation{Law: "lookup_pm_agree", Class: "C14/lookup_pm_agree",
 			Detail: fmt.Sprintf("Lookup gives %s %s, PathMatcher %s %s", cls, optString(found), cls2, optString(res)), Replay: c})
+	}
+}
+
+// genSplitPath14: delimiter-separated paths with escaped delimiters (several per element), bracketed parts,
+// leading / trailing / doubled delimiters and stray backslashes
+func genSplitPath14(g *Rng, d string) string {
+	atoms := []string{"a", "b", "example.com", "x", "", "[name=x]", "[a" + d + "b]", "[a" + d + "b=c]", "[", "]", "k8s.io"}
+	n := 1 + g.Intn(4)
+	parts := []string{}
+	for i := 0; i < n; i++ {
+		p := g.Pick(atoms)
+		for e := g.Intn(4); e > 0; e-- { // 0..3 escaped delimiters inside the element
+			p += "\\" + d + g.Pick([]string{"team", "owner", "y", ""})
+		}
+		if g.Chance(6) {
+			p += "\\"
+		}
+		parts = append(parts, p)
+	}
+	s := strings.Join(parts, d)
+	if g.Chance(12) {
+		s = d + s
+	}
+	if g.Chance(5) {
+		s += d
+	}
+	return s
+}
+
+// lawSplit14: PathSplitter undoes "escape every delimiter inside an element and join": for elements without
+// backslash, with a non-empty first element.
+func lawSplit14(s sink, c case14, g *Rng) {
+	d := g.Pick([]string{"/", "."})
+	n := 1 + g.Intn(4)
+	parts := []string{}
+	for i := 0; i < n; i++ {
+		p := g.Pick([]string{"a", "metadata", "example.com", "x"})
+		for e := g.Intn(4); e > 0; e-- {
+			p += d + g.Pick([]string{"team", "owner", "y", "v1"})
+		}
+		parts = append(parts, p)
+	}
+	esc := []string{}
+	for _, p := range parts {
+		esc = append(esc, strings.ReplaceAll(p, d, "\\"+d))
+	}
+	got := utils.PathSplitter(strings.Join(esc, d), d)
+	ok := len(got) == len(parts)
+	for i := 0; ok && i < len(parts); i++ {
+		ok = got[i] == parts[i]
+	}
+	s.Count("law_domain", "pathsplitter-roundtrip")
+	if !ok {
+		cc := c
+		cc.Op, cc.API = "pathsplitc", &apiSpec{K: d, PathStr: strings.Join(esc, d)}
+		s.Violation(OracleViolation{Law: "path_splitter_roundtrip", Class: "C14/path_splitter_roundtrip",
+			Detail: fmt.Sprintf("PathSplitter(%q, %q) = %q, want %q", strings.Join(esc, d), d, got, parts), Replay: cc})
 	}
 }
